@@ -72,7 +72,7 @@ def run(tier, seed):
     common.build_mmdump()
     common.build_mmdump(debug=True)
     mirs = [common.dump_mir('mimium_lang')[0], common.dump_mir('state_tree')[0]]
-    groups = ['op', 'st', 'ct']
+    groups = ['op', 'st', 'ct', 'cl', 'fx']
     files = common.corpus_files(groups)
     steps = 3 if quick else 6
     budget = 60 if quick else 300
@@ -90,7 +90,7 @@ def run(tier, seed):
             continue
         npaths += r.get('paths', 0)
         nobl += r.get('checks', 0)
-        path = os.path.join(common.VERIF, 'corpus', r['program'] + '.mmm')
+        path = r.get('path') or os.path.join(common.VERIF, 'corpus', r['program'] + '.mmm')
         be = r['backends'][0]
         done = False
         for d in r.get('panics', []):
